@@ -41,3 +41,7 @@ def run(rep: Report, repo: Repo, tier: str) -> None:
     with rep.isolated():
         writer_rules.rule_file_is_rendered_text(rep, repo, "C01-R12")
 
+    # every file's doc text ends up in a page of its own: <out>/<dir>/<stem>.rst with the stem up to the *last* dot
+    from . import pathterms as _pt
+    with rep.isolated():
+        _pt.rule_page_path(rep, repo, "C01-R13")
